@@ -36,6 +36,7 @@ def c18(ctx):
     ns, nsub = RA.rule_range(ctx)
     nm = RA.rule_mono(ctx, {"cms"})
     RA.rule_cap(ctx)
+    RA.rule_call_range(ctx)
     RA.rule_logstep(ctx)
     RA.rule_findbase_post(ctx)
     RM.rule_logmerge_shape(ctx, rounding=False)       # C18: the reserved-range and ceiling branches of the log merge; rounding is C09's
@@ -75,6 +76,7 @@ def c01(ctx):
     RA.rule_qmin(ctx, ks)
     RA.rule_cons(ctx, aks)
     RA.rule_newcount(ctx, only=own_all)
+    RA.rule_call_range(ctx, only=own_all)
     RA.rule_cap(ctx, lin)
     RA.rule_range(ctx, {"cms"}, only=own_all)
     RA.rule_mono(ctx, {"cms"}, only=own_all)
@@ -109,6 +111,7 @@ def c05(ctx):
     F = facts_of(ctx)
     RA.rule_bind(ctx, COUNTMIN)
     RA.rule_attr_type(ctx, COUNTMIN, methods=("add", "add_ngram", "update", "update_ngram", "query", "__getitem__"))
+    RA.rule_call_range(ctx, only=RA.class_kernels(F, COUNTMIN, ("add", "add_ngram", "query")))
     RA.rule_ceil(ctx)
     RA.rule_qmin(ctx)
     RA.rule_cons(ctx)
@@ -154,6 +157,7 @@ def c03(ctx):
     RH.rule_keylen_inv(ctx)
     RA.rule_range(ctx, {"lhh_count"})
     RA.rule_cap(ctx, hh)
+    RA.rule_call_range(ctx, only=RA.class_kernels(F, hh))
     RH.rule_maxcount(ctx)
     RH.rule_report(ctx)
     RT.rule_wrapper_once(ctx, hh)
@@ -342,6 +346,7 @@ def c16(ctx):
 def c12(ctx):
     RA.rule_bind(ctx)
     RA.rule_attr_type(ctx, methods=("add", "add_ngram", "update", "update_ngram"))
+    RA.rule_call_range(ctx, only=RA.class_kernels(facts_of(ctx), SKETCH_CLASSES, ("add", "add_ngram")))
     RT.rule_deleg(ctx)
     RT.rule_window(ctx)
     RT.rule_value_fwd(ctx)
@@ -461,6 +466,7 @@ def c06(ctx):
     logk = RA.class_kernels(F, COUNTMIN[1:])        # C06 is about the log counters: kernels of the log classes' own methods
     RA.rule_cons(ctx, [k for k in RA.add_kernels(F) if k.key in logk])
     RA.rule_newcount(ctx, only=logk)
+    RA.rule_call_range(ctx, only=RA.class_kernels(F, COUNTMIN[1:], ("add", "add_ngram", "query")))
     RA.rule_bind(ctx, COUNTMIN[1:])
     RA.rule_attr_type(ctx, COUNTMIN[1:], methods=("add", "add_ngram", "update", "update_ngram", "query", "__getitem__"))        # num_reserved / base / ceiling reach every log kernel at full width
     ctx.floor("randtoken", 10)
@@ -486,6 +492,8 @@ def c09(ctx):
     RA.rule_other_ro(ctx, mk)
     RA.rule_msum(ctx)
     mkeys = {k.key for k in mk} | {c.callee.key for k in mk for c in F.calls_from(k) if c.callee.is_kernel}
+    RA.rule_attr_type(ctx, COUNTMIN, methods=("merge",))
+    RA.rule_call_range(ctx, only=mkeys)
     RA.rule_range(ctx, {"cms"}, only=mkeys)        # C09 is about merging: the merge kernels only
     RA.rule_mono(ctx, {"cms"}, only=mkeys)
     RA.rule_cover(ctx, mk)
